@@ -6,7 +6,9 @@
    C13 statement, executable = the judge of the end-to-end correspondence run). *)
 From CSL Require Import Base.Prelude Base.U64 Cbor.Head Codec.Schema Ledger.Schemas
   Batch.Calc Batch.CalcProofs Batch.Denote Batch.EncProofs Batch.IntermediateProofs
-  Cbor.Item Batch.BatchSpec Batch.JudgeProofs.
+  Batch.Proposal Batch.ProposalProofs Batch.BatchProofs.
+From CSL Require Cbor.Item Batch.BatchSpec Batch.JudgeProofs.
+From Coq Require Import Permutation.
 Local Open Scope N_scope.
 
 (* the CBOR head-size table of the calculator is the length of the real head, for EVERY argument and major type *)
@@ -84,10 +86,87 @@ Theorem C13_legacy_fee_bound_refuted :
 Proof. exact fee_legacy_bound_refuted. Qed.
 Print Assumptions C13_legacy_fee_bound_refuted.
 
+(* ------------------------------------------------------------------------------------------------------------
+   Proposals (Batch/Proposal.v).  [run c tp_new ops] applies ANY sequence of the primitive operations through which
+   the (unmodelled) greedy grouping acts on a proposal: new output / add asset to the last output (value-size test) /
+   add UTxO (after its assets were placed) / set_min_ada_for_tx.  [finalise] = add_last_ada_to_last_output,
+   set_min_ada_for_tx, check_finished_tx_proposal, create_tx. *)
+
+(* C13_finalise: whatever the grouping, a finalised proposal denotes a transaction that is balanced in lovelace and in
+   every asset, pays fee >= a * |tx| + b for its real encoded size (one witness per distinct owner address), fits
+   max_tx_size, and whose outputs hold min ADA = cpb * (160 + |output|) and respect max_value_size *)
+Theorem C13_finalise : forall c ops p p' tx,
+  ctx_wf c -> run c tp_new ops = Ok p -> incl (t_utxos p) (all_indices c) -> finalise c p = Ok (p', tx) ->
+  tx_valid c tx /\
+  (forall a, sumN (map (fun o => held c (x_inputs tx) o a) (t_outputs p')) = sumN (map (fun u => amount c u a) (x_inputs tx))) /\
+  Forall2 (fun o x => fst x = o_total_ada o /\ out_groups c (x_inputs tx) (o_assets o) = Ok (snd x)) (t_outputs p') (x_outputs tx).
+Proof. exact finalise_full. Qed.
+Print Assumptions C13_finalise.
+
+Check (eq_refl : tx_valid = fun c tx =>
+  sumN (map (fun u => ui_ada (utxo_of c u)) (x_inputs tx)) = sumN (map fst (x_outputs tx)) + x_fee tx /\
+  real_tx_size c tx * cx_a c + cx_b c <= x_fee tx /\ real_tx_size c tx <= cx_max_tx c /\
+  Forall (fun o => (real_out_size c (fst o) (snd o) + 160) * cx_cpb c <= fst o /\
+                   (snd o <> [] -> real_value_size (fst o) (snd o) <= cx_max_value c) /\
+                   (snd o = [] -> real_value_size (fst o) (snd o) <= 9)) (x_outputs tx)).
+
+(* the sizes used in C13_finalise are the lengths of the real encodings of the denoted objects *)
+Theorem C13_denotation :
+  (forall d c addr coin (gsb : groups) gs,
+     lenN addr = cx_addr_size c -> Forall (fun p => lenN (fst p) = 28) gsb -> groups_shape gsb = shape_of gs ->
+     lenN (enc (TransactionOutput d) (output_val addr coin gsb)) = real_out_size c coin gs) /\
+  (forall d c owners (vks boots : list val),
+     (forall x, In x vks -> lenN (enc Vkeywitness x) = get_fake_vkey_size) ->
+     lenN vks = owner_vkeys c owners -> map (fun b => lenN (enc BootstrapWitness b)) boots = owner_boots c owners ->
+     (vks <> [] \/ boots <> []) ->
+     lenN (enc (TransactionWitnessSet d) (ws_val vks boots)) = wit_size (owner_vkeys c owners) (owner_boots c owners)) /\
+  (forall d c tx (ins outs : list val) (ws : val),
+     Forall2 (fun i u => lenN (enc TransactionInput i) = ui_input_size (utxo_of c u)) ins (x_inputs tx) ->
+     Forall2 (fun o x => lenN (enc (TransactionOutput d) o) = real_out_size c (fst x) (snd x)) outs (x_outputs tx) ->
+     lenN (enc (TransactionWitnessSet d) ws) = wit_size (owner_vkeys c (x_owners tx)) (owner_boots c (x_owners tx)) ->
+     lenN (enc (Transaction d) (tx_val (body_val ins outs (x_fee tx)) ws)) = real_tx_size c tx).
+Proof. split; [exact real_out_size_enc|]. split; [exact wit_size_enc | exact real_tx_size_enc]. Qed.
+Print Assumptions C13_denotation.
+
+(* C13_partition: for ANY plan (one accepted operation sequence per transaction, each using only UTxOs still free),
+   when the batch loop ends successfully the inputs of the transactions are exactly the supplied UTxOs, each once *)
+Theorem C13_partition : forall c plan txs,
+  send_all c plan = Ok txs -> Permutation (concat (map x_inputs txs)) (all_indices c).
+Proof. exact send_all_partition. Qed.
+Print Assumptions C13_partition.
+
+(* the premises are satisfiable: a two-UTxO layout with an asset, mainnet parameters *)
+Example C13_example :
+  ctx_wf ex_ctx /\ send_all ex_ctx ex_plan = Ok [mkAtx [0; 1] [(12831463, [[(3, 7, 7)]])] 168537 [0]].
+Proof. split; [exact ex_ctx_wf | exact ex_send_all]. Qed.
+
+(* the three modelled defects, before their repair in /repo (known_findings.d/C13.json) *)
+Theorem C13_partition_legacy_refuted :
+  exists c txs, send_all_gen true c [] = Ok txs /\ ~ Permutation (concat (map x_inputs txs)) (all_indices c).
+Proof. exact send_all_partition_legacy_refuted. Qed.
+Print Assumptions C13_partition_legacy_refuted.
+
+Theorem C13_finalise_without_check_refuted :
+  exists c ops p p' tx,
+    run c tp_new ops = Ok p /\ finalise_gen false c p = Ok (p', tx) /\
+    sumN (map (fun u => ui_ada (utxo_of c u)) (x_inputs tx)) < sumN (map fst (x_outputs tx)) + x_fee tx.
+Proof. exact finalise_without_check_refuted. Qed.
+Print Assumptions C13_finalise_without_check_refuted.
+
+Theorem C13_legacy_fee_estimate_refuted :
+  exists c p0 p1 s1 p2 p3 s3 tx,
+    add_utxo c (add_new_output tp_new) 0 = Ok p0 /\
+    set_min_ada_for_tx_gen true c p0 = Ok (p1, s1) /\ add_last_ada_to_last_output p1 = Ok p2 /\
+    set_min_ada_for_tx_gen true c p2 = Ok (p3, s3) /\ create_tx c p3 = Ok tx /\
+    sumN (map fst (x_outputs tx)) + x_fee tx < sumN (map (fun u => ui_ada (utxo_of c u)) (x_inputs tx)) /\
+    x_fee tx < real_tx_size c tx * cx_a c + cx_b c.
+Proof. exact legacy_fee_estimate_refuted. Qed.
+Print Assumptions C13_legacy_fee_estimate_refuted.
+
 (* the executable judge of the end-to-end run decides the Prop-level C13 statement *)
 Theorem C13_judge_sound : forall c target us l,
-  utxos_distinct us = true -> judge c target us l = [] ->
-  exists ts, Forall2 (fun b p => read_tx (fst b) = Some (fst p) /\ read_tx (snd b) = Some (snd p)) l ts /\
-             C13_statement c target us ts.
-Proof. exact judge_sound. Qed.
+  BatchSpec.utxos_distinct us = true -> BatchSpec.judge c target us l = [] ->
+  exists ts, Forall2 (fun b p => BatchSpec.read_tx (fst b) = Some (fst p) /\ BatchSpec.read_tx (snd b) = Some (snd p)) l ts /\
+             JudgeProofs.C13_statement c target us ts.
+Proof. exact JudgeProofs.judge_sound. Qed.
 Print Assumptions C13_judge_sound.
